@@ -125,8 +125,9 @@ def build(w: dict) -> xarray.Dataset:
         attrs = {"units": "m", "long_name": "depth " + dc["name"]}
         if dc["positive"]:
             attrs["positive"] = dc["positive"]
-        else:
+        elif conv not in DEPTH_NAMES:
             attrs["axis"] = "Z"          # still recognisable as a depth coordinate without `positive`
+        # (the SHOC conventions find their depth coordinates by NAME: there they carry no CF marker at all)
         data_vars = {}
         if dc["bounds"]:
             attrs["bounds"] = dc["name"] + "_bnds"
@@ -255,6 +256,8 @@ def cases(tier: str, seed: int, *, kinds=("norm", "floor")) -> list[dict]:
         c["world"]["via"] = vias[k % len(vias)]
         if k % 3 == 1:
             c["world"]["depth_as"] = "vars"
+        if k % 2 == 0:
+            c["world"]["decoy"] = True      # see worlds.bind
     return out
 
 
@@ -286,6 +289,18 @@ def _cases(tier: str, seed: int, *, kinds=("norm", "floor")) -> list[dict]:
                 # ... and then the user corrects the direction attribute of the first depth coordinate IN PLACE
                 d0 = w["depths"][0]
                 ev.insert(1, {"a": "SetPositive", "k": 1, "value": "up" if d0["positive"] == "down" else "down", "via": "in-place"})
+            out.append({"src": "gen", "world": w, "events": ev})
+    # SHOC simple files whose zc carries no `positive` attribute: the direction is guessed from the values, also through
+    # the accessor (both directions, both layer orders)
+    for down in (True, False):
+        for deepfirst in (True, False):
+            w = make_world("shoc_simple", rng, two=False, K=3)
+            w["depths"][0] = depth_coord("zc", "k", 3, down, deepfirst, False, False)
+            ev = [{"a": "Touch", "via": "accessor"}]
+            if "norm" in kinds:
+                ev += [{"a": "Normalize", "pd": "yes", "d2s": "no", "via": "accessor"}]
+            if "floor" in kinds:
+                ev += [{"a": "OceanFloor", "via": "accessor"}]
             out.append({"src": "gen", "world": w, "events": ev})
     if "norm" in kinds:
         # two coordinates on one depth dimension, through the accessor and through the function
